@@ -243,3 +243,32 @@ M('C13-n-list-sections', 'C13', F_BUILD,
   "    for section in ('lua', 'gfx', 'gff', 'map', 'sfx', 'music'):\n",
   "    for section in ['music', 'lua', 'gfx', 'gff', 'map', 'sfx']:\n",
   kind='neutral')
+
+# ---------------------------------------------------------------- C15 ----
+M('C15-dup-glyph', 'C15', F_LUA,
+  "    P8Char(135, '♥', 'Heart'),",
+  "    P8Char(135, '●', 'Heart'),", expect='R-C15-table')
+M('C15-prefix-glyph', 'C15', F_LUA,
+  "    P8Char(16, '▮', 'Vertical rectangle'),",
+  "    P8Char(16, '⬇', 'Vertical rectangle'),", expect='R-C15-table')
+M('C15-range-off-by-one', 'C15', F_LUA,
+  "P8Char(x, chr(x), chr(x)) for x in range(33, 127)",
+  "P8Char(x, chr(x), chr(x)) for x in range(33, 126)", expect='R-C15-table')
+M('C15-advance-one', 'C15', F_LUA,
+  "        idx += char_width\n", "        idx += 1\n",
+  expect='R-C15-converters')
+M('C15-decoder-filters', 'C15', F_LUA,
+  "    return ''.join(P8SCII_CHARSET[b].p8string for b in bs)\n",
+  "    return ''.join(P8SCII_CHARSET[b].p8string for b in bs if b != 0)\n",
+  expect='R-C15-converters')
+M('C15-writer-latin1', 'C15', F_P8,
+  "            outstr.write(bytes(lua.p8scii_to_unicode(line), 'utf-8'))\n",
+  "            outstr.write(bytes(lua.p8scii_to_unicode(line), 'latin-1'))\n",
+  expect='R-C15-use')
+M('C15-n-rename', 'C15', F_LUA,
+  "        char_width = UNICODE_CHAR_WIDTHS[s[idx]]\n"
+  "        result.append(UNICODE_TO_P8SCII[s[idx:idx+char_width]])\n"
+  "        idx += char_width\n",
+  "        w = UNICODE_CHAR_WIDTHS[s[idx]]\n"
+  "        result.append(UNICODE_TO_P8SCII[s[idx:idx + w]])\n"
+  "        idx += w\n", kind='neutral')
